@@ -15,9 +15,9 @@
 (* Kind = "rpc":      txwatcher.BlockchainRpcTxWatcher (bitcoind / elementsd) *)
 (* Kind = "electrum": lwk.electrumTxWatcher + electrum.liquidBlockHeader-     *)
 (*                    Subscriber + observeOpeningTX / observeCSVTX            *)
-(* The RPC watcher modelled here is the INTENDED one: its depth test does not *)
-(* wrap around (Decide); the real observationLoop subtracts in uint32, which  *)
-(* the conformance run reports (known finding, findings/watcher.json).        *)
+(* The RPC watcher's depth test does not wrap around (Decide): the uint32     *)
+(* subtraction of observationLoop is guarded by current+1 >= firstSeen since  *)
+(* the repair that followed this check's first run.                           *)
 (* The two kinds differ legitimately (documented at the actions): the RPC     *)
 (* watcher evaluates a registration when it is added and polls the CSV list on*)
 (* every tick; the Electrum watcher evaluates only on a header with a higher  *)
@@ -288,16 +288,24 @@ CsvTick ==
     /\ Tok([a |-> "csvtick"])
     /\ EnvKeep /\ UNCHANGED <<polls, wh, c, rep>>
 
-RpcV1(f) == \* GetTxOut
+RpcV1(f) == \* GetTxOut: the observation; the callback is a later step of its own
     /\ v.pc = "v1" /\ UseFault(f)
     /\ LET vw == View(f) IN
-       IF f # "err" /\ ~spent /\ bcast /\ Depth(vw) >= Csv
-       THEN \E cb \in CbRes :
-               /\ RepCsv(cb, f = "stale")
-               /\ v' = IF cb = "ok" THEN VDone(v) ELSE VIdle(v)
-               /\ Tok([a |-> "rpc", f |-> f, cb |-> cb])
-       ELSE /\ v' = VIdle(v) /\ UNCHANGED rep /\ Tok([a |-> "rpc", f |-> f, cb |-> ""])
+       /\ v' = IF f # "err" /\ ~spent /\ bcast /\ Depth(vw) >= Csv
+               THEN [v EXCEPT !.pc = "v2", !.stale = (f = "stale")]
+               ELSE VIdle(v)
+       /\ UNCHANGED rep /\ Tok([a |-> "rpc", f |-> f, cb |-> ""])
     /\ EnvKeep /\ UNCHANGED <<polls, wh, c>>
+
+\* csvPassedCallback. AddWaitForCsvTx hands it to a goroutine of its own (the caller holds the swap's mutex) and
+\* registers the output only if it fails; HandleCsvTx calls it after releasing the watcher's lock and removes the
+\* entry if it succeeds. Either way the chain may move between the observation and the callback (v.seen grows).
+CbV == /\ v.pc = "v2"
+       /\ \E cb \in CbRes :
+             /\ RepCsv(cb, v.stale)
+             /\ v' = IF cb = "ok" THEN VDone(v) ELSE VIdle(v)
+             /\ Tok([a |-> "cbv", cb |-> cb])
+       /\ EnvKeep /\ UNCHANGED <<bud, polls, wh, c>>
 
 -----------------------------------------------------------------------------
 (* Electrum watcher: header -> acceptBlockHeight -> subscriber.Update -> observers *)
@@ -391,7 +399,7 @@ RpcE3(f) == \* GetHistory for v; if c waits for its turn it starts (and may fail
 Starts == {Len(chain) - 1, Len(chain), Len(chain) + 1}
 WatcherStep ==
     \/ \E s \in Starts : AddC_Rpc(s) \/ AddC_El(s)
-    \/ AddV_Rpc \/ AddV_El \/ CsvTick
+    \/ AddV_Rpc \/ AddV_El \/ CsvTick \/ CbV
     \/ \E f \in Faults : Poll(f)
     \/ \E p \in polls : Deliver_Rpc(p) \/ Deliver_El(p)
     \/ \E f \in Faults : RpcK0(f) \/ RpcC1(f) \/ RpcC2(f) \/ RpcC3(f) \/ RpcC4(f) \/ RpcC5(f) \/ RpcC6(f) \/ RpcV1(f)
@@ -415,6 +423,6 @@ P_C20c == \A i \in 1..Len(rep) : rep[i].res = "csv" => rep[i].just
 \* d: nothing is reported for a registration after a report whose callback returned nil
 P_C20d == \A i, j \in 1..Len(rep) : (i < j /\ rep[i].reg = rep[j].reg) => ~rep[i].ok
 TypeOK == /\ c.pc \in {"idle", "k0", "c1", "c2", "c3", "c4", "c5", "c6", "e1", "e2", "q"}
-          /\ v.pc \in {"idle", "v1", "e3", "q"}
+          /\ v.pc \in {"idle", "v1", "v2", "e3", "q"}
           /\ Cardinality({i \in 1..Len(chain) : chain[i].tx}) <= 1
 =============================================================================
